@@ -30,6 +30,19 @@ def build(chk):
                 "effects-analysis (global RNG / clock / module state / memoisation)", "purity", replay=lambda m, base=base: {"recipe": base}, kind="frame")
         for u in s.undecided:
             chk.unsupported.append((fname, "effects analysis undecided at line %d: %s" % (u.lineno, u.what)))
+    # results are not changed behind the caller's back: no method writes IN PLACE into the object an attribute held when the method was entered
+    # if some method returns (a view of) that attribute -- the arrays a screen / covariance object handed out stay what they were
+    seen_cls = set()
+    for mod, q in funcs:
+        if "." in q:
+            cls = q.split(".")[0]
+            if (mod.relpath, cls) in seen_cls:
+                continue
+            seen_cls.add((mod.relpath, cls))
+            esc, pre = effects.escaping_prestate_writes(an, mod, cls)
+            chk.add("%s: no method writes in place into an array that an earlier call returned (attributes returned: %s)%s" % (cls, ", ".join(esc) or "none", (" [" + "; ".join("%s line %d: %s (self.%s)" % (qq.split(".")[-1], st.lineno, st.what[:50], a) for qq, st, a in pre)[:300] + "]") if pre else ""),
+                    [], z3.BoolVal(not pre), "%s:%s" % (mod.relpath, cls), "effects-analysis (entry-state objects of self written in place vs. attributes returned by methods)", "methods", kind="frame",
+                    replay=lambda m: {})
     chk.confirm_known("C20-global-rng", "purity", {"recipe": "optimal_grouping"})
     # bounded native stand-in in the thorough tier (and the differential check of the analysis): every recipe, before/after comparison
     if True:       # bounded native stand-in, every tier: before/after comparison of every recipe
